@@ -177,6 +177,10 @@ def run_case(case, cnt=None, root=None, idset=None):
                 expected_outputs.append("both.bin")
             if sel.startswith("make-bad-dir"):
                 main.append("make_raw \"nodir/bad.raw\"")
+        if not sel.startswith("make") and case["seed"] % 3 == 1 and not any(".end" in l.lower() for l in host["texts"][host["linked"][-1]]):
+            # the program ends with a forward reference and the label it refers to: nothing after it makes the assembler look at it again
+            clicase.append_last(host, [rnd.choice(["\tbr fin9qq", "\tmov fin9qq, r0", "\t.word fin9qq", "\tsob r1, fin8qq\n\tbne fin9qq"]).replace("sob r1, fin8qq", "nop"), "fin9qq:"],
+                                host["linked"][-1])
         if case.get("big_image"):
             expected_outputs.append("big7.bin")
         lst = None
